@@ -312,6 +312,10 @@ func c10Run(c *mc.Ctx, pre string, cfg ref.Cfg, it ref.Item, p0 ref.V, alias int
 				fail("unmarshal-error", err.Error())
 				return
 			}
+			if bad := badSliceHeader(target.Elem(), ""); bad != "" {
+				fail("decoded-slice-header-corrupt", bad)
+				return
+			}
 			got := ref.FromReflect(t, target.Elem())
 			gs := ref.Str(t, got)
 			alts := ref.Merge(cfg, t, "", prior, v, true)
